@@ -74,6 +74,21 @@ def static_mech(src, opts, out):
                 for x, y in zip(n.body, n.body[1:]):
                     if isinstance(x, ast.ImportFrom) and isinstance(y, ast.ImportFrom) and x.module == y.module and x.level == y.level and x.module != '__future__':
                         return 'C01.combine_imports.partial_binding'
+    if opts.get('rename_locals') or opts.get('rename_globals'):
+        # a renamed class mangles its __private names with the new class name; an explicit _Class__name reference elsewhere no longer matches
+        classes = set(n.name for n in ast.walk(tree) if isinstance(n, ast.ClassDef))
+        for n in ast.walk(tree):
+            if isinstance(n, ast.Attribute) and n.attr.startswith('_') and any(n.attr.startswith('_%s__' % c) for c in classes):
+                return 'C01.class_rename.private_name_mangling'
+        # `self` (or a positional-only parameter) renamed in place to a short name that a caller passes through **kwargs
+        short = set(k.arg for n in ast.walk(tree) if isinstance(n, ast.Call) for k in n.keywords if k.arg and len(k.arg) <= 2)
+        if short and any(isinstance(n, (ast.FunctionDef, ast.AsyncFunctionDef)) and n.args.kwarg is not None for n in ast.walk(tree)) and out:
+            try:
+                for n in ast.walk(ast.parse(out)):
+                    if isinstance(n, (ast.FunctionDef, ast.AsyncFunctionDef)) and n.args.kwarg is not None and any(a.arg in short for a in n.args.posonlyargs + n.args.args):
+                        return 'C01.inplace_rename.collides_with_kwargs'
+            except Exception:
+                pass
     fb = class_fallback_names(tree)
     if fb and out:
         try:
